@@ -9,6 +9,7 @@ import (
 	"fmt"
 	"sort"
 	"strings"
+	"sync"
 	"text/template"
 
 	"wa-lang.org/wa/internal/backends/compiler_wat/wir"
@@ -32,7 +33,13 @@ func New() *Compiler {
 	return new(Compiler)
 }
 
+// wir 包通过进程级的 currentModule 访问当前模块, 编译过程需要串行化
+var compileMu sync.Mutex
+
 func (p *Compiler) Compile(prog *loader.Program) (output string, err error) {
+	compileMu.Lock()
+	defer compileMu.Unlock()
+
 	p.prog = prog
 
 	// 不同平台 stack 大小不同
